@@ -74,7 +74,7 @@ impl Meta {
     self.ptr_offset as int + self.ptr_size as int <= old(st)@.bytes.len(), // [C01 C04]
   ensures
     final(st).hdr == old(st).hdr, final(st).list == old(st).list,
-    final(st)@ == (SV { bytes: splice(old(st)@.bytes, self.ptr_offset as int, zeros(self.ptr_size as int)), ..old(st)@ }), // [C08 C01]
+    final(st)@ == (SV { bytes: splice(old(st)@.bytes, self.ptr_offset as int, zeros(self.ptr_size as int)), ..old(st)@ }), // [C08]
 //@after 1 /st\.write_bytes/
     proof { assert(Seq::new(self.ptr_size as usize as nat, |i: int| 0u8) =~= zeros(self.ptr_size as int)); }
 //@@end
@@ -97,7 +97,7 @@ impl Meta {
     layout_ok::<T>(),
     old(self).memory_offset as int + align_of::<T>() as int <= u32::MAX as int, // [C04]
     old(self).memory_offset as int + old(self).memory_size as int <= u32::MAX as int, // [C04]
-    align_up(old(self).memory_offset as int, align_of::<T>() as int) <= old(self).memory_offset as int + old(self).memory_size as int, // [C04 C03]
+    align_up(old(self).memory_offset as int, align_of::<T>() as int) <= old(self).memory_offset as int + old(self).memory_size as int, // [C04]
   ensures
     final(self).ptr_offset as int == align_up(old(self).memory_offset as int, align_of::<T>() as int), // [C03]
     final(self).ptr_offset as int + final(self).ptr_size as int == old(self).memory_offset as int + old(self).memory_size as int, // [C03 C01]
@@ -174,7 +174,7 @@ impl Arena {
   requires
     offset != 0 && size != 0 ==> offset as int + 8 <= u32::MAX as int, // [C04]
   ensures
-    r == seg_valid(st@, offset as int, size as int), // [C10]
+    r == seg_valid(st@, offset as int, size as int), // [C10 C20]
 //@before 1 /let aligned_offset = align_offset::<u64>/
     proof { axiom_u64_layout(); }
 //@@end
@@ -187,7 +187,7 @@ impl Arena {
     offset != 0 && size != 0 ==> old(st)@.discarded + (if seg_valid(old(st)@, offset as int, size as int) { 0 } else { size as int }) <= u32::MAX as int, // [C20]
     old(st)@.writable || offset == 0 || size == 0, // [C09]
   ensures
-    r.is_some() == seg_valid(old(st)@, offset as int, size as int), // [C10]
+    r.is_some() == seg_valid(old(st)@, offset as int, size as int), // [C10 C20]
     r matches Some(seg) ==> final(st)@ == old(st)@ && seg_node(offset as int, size as int) == (seg.ptr_offset, seg.data_size)
         && seg.data_offset == seg.ptr_offset + 8 && seg.ptr == self.ptr, // [C10 C01]
     r.is_none() ==> final(st)@ == (SV { discarded: old(st)@.discarded + (if offset == 0 || size == 0 { 0 } else { size as int }), ..old(st)@ }), // [C20]
@@ -292,7 +292,7 @@ impl Arena {
   ensures
     wf_shape(self.av(), final(st)@), // [C01 C10]
     wf_order(self.av(), final(st)@), // [C10]
-    r == seg_valid(old(st)@, offset as int, size as int), // [C10]
+    r == seg_valid(old(st)@, offset as int, size as int), // [C10 C20]
     r ==> final(st)@.list == list_insert(old(st)@.list, seg_node(offset as int, size as int), true), // [C10]
     r ==> final(st)@.discarded == old(st)@.discarded + 8, // [C20]
     !r ==> final(st)@ == (SV { discarded: old(st)@.discarded + (if offset == 0 || size == 0 { 0 } else { size as int }), ..old(st)@ }), // [C20]
@@ -347,7 +347,7 @@ impl Arena {
   ensures
     wf_shape(self.av(), final(st)@), // [C01 C10]
     wf_order(self.av(), final(st)@), // [C10]
-    r == seg_valid(old(st)@, offset as int, size as int), // [C10]
+    r == seg_valid(old(st)@, offset as int, size as int), // [C10 C20]
     r ==> final(st)@.list == list_insert(old(st)@.list, seg_node(offset as int, size as int), false), // [C10]
     r ==> final(st)@.discarded == old(st)@.discarded + 8, // [C20]
     !r ==> final(st)@ == (SV { discarded: old(st)@.discarded + (if offset == 0 || size == 0 { 0 } else { size as int }), ..old(st)@ }), // [C20]
@@ -619,9 +619,9 @@ impl Arena {
     old(st)@.discarded + 8 <= u32::MAX as int, // [C20]
   ensures
     !self.ro && size == 0 ==> (r matches Ok(None)) && final(st)@ == old(st)@, // [C03]
-    !self.ro && size > 0 ==> (r.is_err() <==> alloc_fails(self.av(), old(st)@, size as int, size as int)), // [C04 C10]
+    !self.ro && size > 0 ==> (r.is_err() <==> alloc_fails(self.av(), old(st)@, size as int, size as int)), // [C10]
     r matches Ok(None) ==> size == 0, // [C03]
-    r matches Ok(Some(m)) ==> alloc_bytes_ok(self.av(), old(st)@, final(st)@, size, m.memory_offset as int, m.memory_size as int, m.ptr_offset as int, m.ptr_size as int), // [C03 C10 C01 C20]
+    r matches Ok(Some(m)) ==> alloc_bytes_ok(self.av(), old(st)@, final(st)@, size, m.memory_offset as int, m.memory_size as int, m.ptr_offset as int, m.ptr_size as int), // [C03 C10 C20]
     r matches Ok(Some(m)) ==> m.ptr_size == size, // [C03]
     r matches Ok(Some(m)) ==> all_zero(final(st)@.bytes, m.ptr_offset as int, m.ptr_offset as int + m.ptr_size as int), // [C08]
     self.ro ==> r matches Err(Error::ReadOnly), // [C09 C04]
@@ -653,9 +653,9 @@ impl Arena {
   ensures
     !self.ro && size_of::<T>() == 0 ==> (r matches Ok(None)) && final(st)@ == old(st)@, // [C03]
     !self.ro && size_of::<T>() > 0 ==> (r.is_err() <==> alloc_fails(self.av(), old(st)@,
-        align_up(old(st)@.allocated, align_of::<T>() as int) + size_of::<T>() as int - old(st)@.allocated, pad_of::<T>())), // [C04 C10]
+        align_up(old(st)@.allocated, align_of::<T>() as int) + size_of::<T>() as int - old(st)@.allocated, pad_of::<T>())), // [C03]
     r matches Ok(None) ==> size_of::<T>() == 0, // [C03]
-    r matches Ok(Some(m)) ==> alloc_typed_ok::<T>(self.av(), old(st)@, final(st)@, m.memory_offset as int, m.memory_size as int, m.ptr_offset as int, m.ptr_size as int), // [C03 C10 C01 C20]
+    r matches Ok(Some(m)) ==> alloc_typed_ok::<T>(self.av(), old(st)@, final(st)@, m.memory_offset as int, m.memory_size as int, m.ptr_offset as int, m.ptr_size as int), // [C03]
     self.ro ==> r matches Err(Error::ReadOnly), // [C09 C04]
     r.is_err() ==> final(st)@ == old(st)@, // [C04 C09]
     r matches Err(e) ==> (e matches Error::ReadOnly) || (e matches Error::InsufficientSpace { .. }), // [C04]
@@ -665,6 +665,7 @@ impl Arena {
     frame_ok(old(st)@.list, old(st)@.bytes, final(st)@.bytes, old(st)@.allocated, self.cap as int), // [C01]
     wf_shape(self.av(), final(st)@), // [C01 C10]
     wf_order(self.av(), final(st)@), // [C10]
+    final(st)@.discarded >= old(st)@.discarded && final(st)@.min_seg == old(st)@.min_seg, // [C20]
 //@before 1 /let align_offset = align_offset::<T>\(allocated\);/
     let ghost s0 = st@;
 //@after 1 /unsafe \{ allocated\.clear\(self, st\) \};/
@@ -695,12 +696,13 @@ impl Arena {
     !self.ro && size_of::<T>() == 0 && extra == 0 ==> (r matches Ok(None)) && final(st)@ == old(st)@, // [C03]
     r matches Ok(None) ==> size_of::<T>() == 0 && extra == 0, // [C03]
     !self.ro && !(size_of::<T>() == 0 && extra == 0) ==> (r.is_err() <==> alloc_fails(self.av(), old(st)@,
-        align_up(old(st)@.allocated, align_of::<T>() as int) + size_of::<T>() as int + extra as int - old(st)@.allocated, pad_of::<T>() + extra as int)), // [C04 C10]
+        align_up(old(st)@.allocated, align_of::<T>() as int) + size_of::<T>() as int + extra as int - old(st)@.allocated, pad_of::<T>() + extra as int)), // [C03]
     r matches Ok(Some(m)) ==> (if size_of::<T>() == 0 && align_of::<T>() == 1 {
         alloc_bytes_ok(self.av(), old(st)@, final(st)@, extra, m.memory_offset as int, m.memory_size as int, m.ptr_offset as int, m.ptr_size as int)
       } else {
         alloc_aligned_ok::<T>(self.av(), old(st)@, final(st)@, extra, m.memory_offset as int, m.memory_size as int, m.ptr_offset as int, m.ptr_size as int)
-      }), // [C03 C10 C01 C20]
+      }), // [C03]
+    final(st)@.discarded >= old(st)@.discarded && final(st)@.min_seg == old(st)@.min_seg, // [C20]
     r matches Ok(Some(m)) ==> m.ptr_offset as int % (align_of::<T>() as int) == 0 && m.ptr_size as int >= size_of::<T>() as int + extra as int, // [C03]
     self.ro ==> r matches Err(Error::ReadOnly), // [C09 C04]
     r.is_err() ==> final(st)@ == old(st)@, // [C04 C09]
@@ -721,9 +723,9 @@ impl Arena {
 //@before 1 /match self\.freelist \{/
     proof { lemma_pick_policy(self.av(), s0, padded); }
 //@before 1 /bytes\.align_bytes_to::<T>\(\);/
-            proof { lemma_align_up_props(bytes.memory_offset as int, align_of::<T>() as int); }
+            proof { lemma_align_up_props(bytes.memory_offset as int, align_of::<T>() as int); lemma_size_ge_align::<T>(); }
 //@before 2 /bytes\.align_bytes_to::<T>\(\);/
-            proof { lemma_align_up_props(bytes.memory_offset as int, align_of::<T>() as int); }
+            proof { lemma_align_up_props(bytes.memory_offset as int, align_of::<T>() as int); lemma_size_ge_align::<T>(); }
 //@@end
 
 // ---- release, discard, rewind, accessors (trait methods) ---------------------------------------------------------------
